@@ -18,7 +18,25 @@ def _keep_expected(s):
 
 
 # ---------------- ceremony level (every format) ----------------
-def c_type(s, r): s.cd_type = r.choice(["webauthn.get", "webauthn.create ", ""])
+def c_type(s, r):
+    from harness import srcdict
+    s.cd_type = r.choice(["webauthn.get", "webauthn.create ", "", "payment.create", "Webauthn.create"] + srcdict.words())
+    authcat._word_decoys(s, r)
+def c_alg_alias(s, r):
+    # the credential key declares an algorithm id that is NOT in the allowed list but that some registry calls "the same algorithm"
+    # (Ed25519 -19 for EdDSA -8, ESP256 -9 for ES256 -7, ...) or that the changed source newly mentions
+    from harness import srcdict
+    pairs = [("EdDSA", -19), ("ES256-P256", -9), ("EdDSA", -53), ("ES256-P384", -51), ("RS256", -260), ("ES512-P521", -52), ("ES256-P256", -47), ("ES256-P384", -35), ("RS384", -261)]
+    pairs += [(k, a) for a in srcdict.alg_ids() for k in ("EdDSA", "ES256-P256", "RS256")]
+    kind, alg = r.choice(pairs)
+    if s.fmt in ("tpm", "fido-u2f") and authsim.KINDS[kind][0] == "ed":
+        kind = "ES256-P256"
+    if s.fmt == "fido-u2f":
+        kind = "ES256-P256"
+    s.kind = kind
+    m = dict(Cred(kind).cose)
+    m[3] = alg
+    s.k["cose_bytes"] = cbor2.dumps(m)
 def c_challenge_other(s, r): s.sign_challenge = bytes(x ^ 0x55 for x in s.challenge)
 def c_challenge_trunc(s, r): s.sign_challenge = s.challenge[:-1] if r.random() < 0.5 else s.challenge + b"\x00"
 def c_challenge_b64_alias(s, r):
@@ -58,7 +76,7 @@ def c_unknown_fmt(s, r): s.k["fmt_override"] = r.choice(["bogus", "Packed", "non
 def c_bs_without_be(s, r): s.flags = (s.flags | 0x10) & ~0x08
 
 CEREMONY = {
-    "id-not-b64-rawid:padded-1": c_id_fault("padded-1"), "id-not-b64-rawid:last-char-spare-bits": c_id_fault("last-char-spare-bits"), "id-not-b64-rawid:newline-appended": c_id_fault("newline-appended"),
+    "credential-alg-alias-not-in-allowed-list": c_alg_alias, "id-not-b64-rawid:padded-1": c_id_fault("padded-1"), "id-not-b64-rawid:last-char-spare-bits": c_id_fault("last-char-spare-bits"), "id-not-b64-rawid:newline-appended": c_id_fault("newline-appended"),
     "id-not-b64-rawid:standard-alphabet": c_id_fault("standard-alphabet"), "id-not-b64-rawid:char-appended": c_id_fault("char-appended"), "id-not-b64-rawid:empty": c_id_fault("empty"),
     "origin-alias-spelling": c_origin_alias, "challenge-base64url-alias": c_challenge_b64_alias, "allowed-algorithms-empty": c_algs_empty,
     "cd-type": c_type, "challenge-other": c_challenge_other, "challenge-trunc": c_challenge_trunc, "origin-other": c_origin_other,
